@@ -13,6 +13,7 @@ ap.add_argument('--workers', type=int, default=5)
 ap.add_argument('--only', default='')
 ap.add_argument('--out', default=os.path.join(VERIF, '.cache', 'seedpar.log'))
 ap.add_argument('--harmless', action='store_true')
+ap.add_argument('--tag', default='a')
 a = ap.parse_args()
 
 jobs = queue.Queue()
@@ -31,8 +32,8 @@ open(a.out, 'w').close()
 
 
 def worker(k):
-    wt = '/tmp/seedpar_wt%d' % k
-    vc = '/tmp/seedpar_v%d' % k
+    wt = '/tmp/seedpar_%s_wt%d' % (a.tag, k)
+    vc = '/tmp/seedpar_%s_v%d' % (a.tag, k)
     subprocess.run(['git', '-C', '/repo', 'worktree', 'remove', '--force', wt], capture_output=True)
     shutil.rmtree(vc, ignore_errors=True)
     subprocess.run(['git', '-C', '/repo', 'worktree', 'add', '--detach', wt, 'HEAD'], capture_output=True)
